@@ -360,3 +360,112 @@ pub fn make(kind: Kind, q: &[V], q2: &[V], m: &KMapData, m2: &KMapData) -> (Box<
         }
     }
 }
+
+// ---------------------------------------------------------------- inline (in-tick) order hooks
+
+#[derive(Clone, Copy, PartialEq, Eq, Debug)]
+pub enum InlineKind {
+    SOrder,
+    Merge,
+    KOrder,
+    POrder,
+    KMerge,
+}
+pub const INLINE_KINDS: [InlineKind; 5] = [InlineKind::SOrder, InlineKind::Merge, InlineKind::KOrder, InlineKind::POrder, InlineKind::KMerge];
+impl InlineKind {
+    pub fn name(self) -> &'static str {
+        match self {
+            InlineKind::SOrder => "sOrder",
+            InlineKind::Merge => "merge",
+            InlineKind::KOrder => "kOrder",
+            InlineKind::POrder => "pOrder",
+            InlineKind::KMerge => "kMerge",
+        }
+    }
+    pub fn parse(s: &str) -> Option<InlineKind> {
+        INLINE_KINDS.iter().copied().find(|k| k.name() == s)
+    }
+    pub fn keyed(self) -> bool {
+        !matches!(self, InlineKind::SOrder | InlineKind::Merge)
+    }
+    pub fn two(self) -> bool {
+        matches!(self, InlineKind::Merge | InlineKind::KMerge)
+    }
+    pub fn site(self) -> &'static str {
+        match self {
+            InlineKind::SOrder => "StreamOrderHook",
+            InlineKind::Merge => "MergeOrderedHook",
+            InlineKind::KOrder => "KeyedStreamOrderHook",
+            InlineKind::POrder => "PartiallyOrderedStreamHook",
+            InlineKind::KMerge => "KeyedMergeOrderedHook",
+        }
+    }
+}
+
+pub enum InlineOut {
+    Items(Receiver<Vec<V>>),
+    Pairs(Receiver<Vec<(K, V)>>),
+}
+
+/// the iteration orders of the two internal maps of `KeyedStreamOrderHook::autonomous_decision`,
+/// reproduced by performing the same insertions on maps of the same type
+#[expect(clippy::disallowed_methods, reason = "iteration order is exactly what is observed")]
+pub fn keyed_order_maps(inputs: &[(K, V)]) -> (Vec<K>, Vec<K>) {
+    let mut grouped: FxHashMap<K, Vec<V>> = FxHashMap::default();
+    for (k, v) in inputs.iter().copied() {
+        grouped.entry(k).or_insert_with(Vec::new).push(v);
+    }
+    let go: Vec<K> = grouped.keys().copied().collect();
+    let mut out: FxHashMap<K, Vec<V>> = FxHashMap::default();
+    for (k, vs) in grouped {
+        out.insert(k, vs);
+    }
+    let oo: Vec<K> = out.keys().copied().collect();
+    (go, oo)
+}
+
+pub fn make_inline(kind: InlineKind, a: &[V], b: &[V], ap: &[(K, V)], bp: &[(K, V)]) -> (Box<dyn SimInlineHook>, InlineOut) {
+    match kind {
+        InlineKind::SOrder => {
+            let (tx, rx) = unbounded();
+            let h = StreamOrderHook::<V>::new(Rc::new(RefCell::new(Some(a.to_vec()))), tx, LOC, fmt_v);
+            (Box::new(h), InlineOut::Items(rx))
+        }
+        InlineKind::Merge => {
+            let (tx, rx) = unbounded();
+            let h = MergeOrderedHook::<V>::new(
+                Rc::new(RefCell::new(Some(a.to_vec()))),
+                Rc::new(RefCell::new(Some(b.to_vec()))),
+                tx,
+                LOC,
+                fmt_v,
+            );
+            (Box::new(h), InlineOut::Items(rx))
+        }
+        InlineKind::KOrder => {
+            let (tx, rx) = unbounded();
+            let h = KeyedStreamOrderHook::<K, V>::new(Rc::new(RefCell::new(Some(ap.to_vec()))), tx, LOC, fmt_v, fmt_v);
+            (Box::new(h), InlineOut::Pairs(rx))
+        }
+        InlineKind::POrder => {
+            let (tx, rx) = unbounded();
+            let h = PartiallyOrderedStreamHook::<K, V>::new(Rc::new(RefCell::new(Some(ap.to_vec()))), tx, LOC, fmt_v, fmt_v);
+            (Box::new(h), InlineOut::Pairs(rx))
+        }
+        InlineKind::KMerge => {
+            let (tx, rx) = unbounded();
+            let h = KeyedMergeOrderedHook::<K, V>::new(
+                Rc::new(RefCell::new(Some(ap.to_vec()))),
+                Rc::new(RefCell::new(Some(bp.to_vec()))),
+                tx,
+                LOC,
+                fmt_kv,
+            );
+            (Box::new(h), InlineOut::Pairs(rx))
+        }
+    }
+}
+
+pub fn drain_vec<T>(rx: &mut Receiver<Vec<T>>) -> Vec<Vec<T>> {
+    drain(rx)
+}
